@@ -29,6 +29,9 @@ From RM Require Import Model.EncTimingSpec Proofs.ControlPointsFacts Proofs.EncT
   Proofs.EncCollect Proofs.EncGroups Proofs.EncTimingInv Proofs.EncTimingRT Proofs.EncTimingExample Proofs.EncTimingImage
   Proofs.TimingPointsValues.
 From RM Require Import Proofs.Enc2Values Proofs.Enc2Samples Proofs.Enc2Float Proofs.Enc2Timing Proofs.Enc2Slider Proofs.Enc2Examples.
+From RM Require Proofs.Enc2SvReal.
+From RM Require Import Proofs.Enc2SvRT.
+From Coq Require Reals.
 From RM Require Model.Curve.
 From RM Require Import Model.DrvEnc Proofs.EncMapImage.
 From RM Require Import Gen.Generated.
@@ -471,21 +474,50 @@ Theorem C02_decoded_timing_invariants :
 Proof. exact decoded_rt_invariants. Qed.
 Print Assumptions C02_decoded_timing_invariants.
 
-(* T02d for decoded maps.  FULL statement intended: no hypothesis beyond the recorded classes.
-   PROVED: under [rt_classes] -- times separated (D28 / D8), values separated (D27), scroll speed
-   following slider velocity (D12), sample-point times within the limits (D26 / D32) -- which are
-   all refuted by decodable inputs, and the float fact [svs_round_trip] (every stored velocity
-   survives -100/sv -> 100/-x).  [svs_round_trip] is NOT a recorded class: it is false for some
-   velocities in [0.1, 10] (C02_sv_round_trips_refuted) but no velocity in the decoder's image
-   (clamp of 100 / -x for a parsed x) is known to violate it; not mechanised (a number-theoretic
-   argument about the odd part of 100, see the status comment). *)
-Theorem C02_timing_round_trip_decoded_partial :
+(* the float fact [svs_round_trip], for the decoder's image.  Real-number core: for binary64
+   numbers x > 0 and S = RN(100 / x) with 2^-4 <= S <= 2^4 (RN: to nearest, ties to even),
+   RN(100 / RN(100 / S)) = S.  (Monotonicity of RN when RN(100/S) lies between x and 100/S;
+   convexity of 1/t on one side; on the other side a failure would make the odd number 2Y + 1,
+   Y >= 2^52 the significand of RN(100/S), a divisor of 25.  False for constants with a large odd
+   part, and false for velocities outside the image: C02_sv_round_trips_refuted.) *)
+Theorem C02_three_divisions :
+  let F := Generic_fmt.generic_format Zaux.radix2 (SpecFloat.fexp 53 1024) in
+  let RN := Generic_fmt.round Zaux.radix2 (SpecFloat.fexp 53 1024) (Generic_fmt.Znearest (fun n => negb (Z.even n))) in
+  forall x S : Rdefinitions.R,
+  F x -> Rdefinitions.Rlt (Rdefinitions.IZR 0) x ->
+  RN (Rdefinitions.Rdiv (Rdefinitions.IZR 100) x) = S ->
+  Rdefinitions.Rle (Raux.bpow Zaux.radix2 (-4)) S /\ Rdefinitions.Rle S (Raux.bpow Zaux.radix2 4) ->
+  RN (Rdefinitions.Rdiv (Rdefinitions.IZR 100) (RN (Rdefinitions.Rdiv (Rdefinitions.IZR 100) S))) = S.
+Proof. exact Enc2SvReal.three_divisions. Qed.
+Print Assumptions C02_three_divisions.
+
+(* every velocity the decoder can store -- clamp(speed_multiplier beat, 0.1, 10) for ANY beat-length
+   field, NaN and infinities included -- survives -100/sv -> 100/-x, bit for bit *)
+Theorem C02_image_sv_round_trips :
+  forall beat, sv_round_trips (D.clamp (speed_multiplier beat) sv_lo sv_hi) = true.
+Proof. exact image_sv_round_trips. Qed.
+Print Assumptions C02_image_sv_round_trips.
+
+Theorem C02_decoded_svs_round_trip :
+  forall dist_of lines m, decode_beatmap dist_of lines = Done m ->
+  svs_round_trip (hov_control_points (bmv_ho m)) = true.
+Proof. exact decoded_svs_round_trip. Qed.
+Print Assumptions C02_decoded_svs_round_trip.
+
+(* T02d for decoded maps: NO hypothesis beyond the recorded classes.  [rt_classes]: times
+   separated (D28 / D8), values separated (D27), scroll speed following slider velocity (D12),
+   sample-point times within the limits (D26 / D32) -- each refuted by a decodable input.  For
+   every such map, every formatting function satisfying [fmt_ok] / [no_leading_zero] and every
+   General state [g] with the map's mode: the [TimingPoints] section the encoder writes is
+   accepted line by line and decodes to the same timing points and the same slider-velocity /
+   kiai / scroll-speed timelines. *)
+Theorem C02_timing_round_trip_decoded :
   forall dist_of events_of fmt_f64 fmt_f32 fmt_int,
   fmt_ok fmt_f64 fmt_f32 fmt_int -> no_leading_zero fmt_int ->
   forall lines m c g,
   Forall no_lf_line lines -> decode_beatmap dist_of lines = Done m ->
   enc_control_points dist_of events_of m = Done c ->
-  rt_classes (tpg_mode g) c = true -> svs_round_trip c = true ->
+  rt_classes (tpg_mode g) c = true ->
   let c0 := hov_control_points (bmv_ho m) in
   exists ls c',
     enc_timing_points dist_of events_of m = Done (header_tok SecTimingPoints :: ls) /\
@@ -494,8 +526,8 @@ Theorem C02_timing_round_trip_decoded_partial :
     (forall t, sv_at c' t = sv_at c0 t) /\
     (forall t, kiai_at c' t = kiai_at c0 t) /\
     (forall t, scroll_at c' t = scroll_at c0 t).
-Proof. exact decoded_timing_round_trip_classes. Qed.
-Print Assumptions C02_timing_round_trip_decoded_partial.
+Proof. exact decoded_timing_round_trip_final. Qed.
+Print Assumptions C02_timing_round_trip_decoded.
 
 (* non-vacuity: a decoded taiko map with same-time groups, kiai and several velocities *)
 Example C02_rt_classes_example :
@@ -688,18 +720,14 @@ Proof. exact sliders_example. Qed.
      C02_path_image_is_decoder_image, outside D13 / D17 / consecutive Catmull).
 
    T02d  timing points and the three timelines: MECHANISED for decoded maps
-     (C02_timing_round_trip_decoded_partial).  The value side conditions (clamps, finite times)
-     and "written numbers within the parse limits" are now FACTS about every decoded map
-     (C02_decoded_control_point_limits, C02_written_beat_fields_within_limits,
-     C02_decoded_timing_invariants).  What remains as hypotheses is [rt_classes] -- every clause of
-     which is refuted by a decodable input: separated times (D28, D8), separated values (D27),
-     scroll speed following slider velocity (D12), sample-point times within the limits (D26, D32)
-     -- and the float fact [svs_round_trip] (100 / (100 / sv) = sv after rounding), which is NOT
-     proved for the decoder's image.  Argument on paper (not mechanised): for sv = fl(100 / x),
-     y = fl(100 / sv), a failure fl(100 / y) <> sv forces, with integer significands Y of y and
-     T of sv, 100 * 2^k = (Y + 1)(2Y + 1) / 2 or Y (2Y + 1) / 2, i.e. the odd number 2Y + 1 >= 2^53
-     would divide 25; exhaustive-style search (3 * 10^6 velocities in the image) finds no failure.
-     A velocity outside the image can fail (C02_sv_round_trips_refuted).
+     (C02_timing_round_trip_decoded).  The value side conditions (clamps, finite times), "written
+     numbers within the parse limits" and the float fact "every stored velocity survives
+     -100/sv -> 100/-x" are FACTS about every decoded map (C02_decoded_control_point_limits,
+     C02_written_beat_fields_within_limits, C02_decoded_timing_invariants,
+     C02_image_sv_round_trips from the real-number theorem C02_three_divisions).  The only
+     hypotheses left are the recorded classes [rt_classes], every clause of which is refuted by a
+     decodable input: separated times (D28, D8), separated values (D27), scroll speed following
+     slider velocity (D12), sample-point times within the limits (D26, D32).
 
    T02e  sliders end to end: MECHANISED per line (C02_slider_round_trip_partial): accepted in every
      parser state of the slider's mode, same start time, position, control points, repeat count,
